@@ -103,6 +103,18 @@ def check_case(ctx, cs):
                     bad = same_def(project(v2), sh)
                     if bad:
                         ctx.violate("construct.construct_volume", t2, small, {"field": bad})
+        # the six boundary faces: first and last section of every set, in the documented order
+        ok, iso = _try(ctx, "construct.extract_isosurface", tg, small, lambda: construct.extract_isosurface(obj))
+        if ok:
+            want = [o["ex"]["uv"][0], o["ex"]["uv"][-1], o["ex"]["uw"][0], o["ex"]["uw"][-1], o["ex"]["vw"][0], o["ex"]["vw"][-1]]
+            if len(iso) != 6:
+                ctx.violate("construct.extract_isosurface", tg + ["count"], small, {"got": len(iso)})
+            else:
+                for i, (a, e) in enumerate(zip(iso, want)):
+                    bad = same_def(project(a), e)
+                    if bad:
+                        ctx.violate("construct.extract_isosurface", tg, small, {"face": i, "field": bad})
+                        break
         vec = [float(x) for x in frv(o["vec"])]
         ok, _r = _try(ctx, "operations.translate", tg + ["inplace"], small, lambda: operations.translate(obj, vec, inplace=True))
         if ok:
@@ -164,6 +176,28 @@ def check_case(ctx, cs):
                         m.set_ctrlpt(P[exp], *args)
             if not close_seq([list(p) for p in m.ctrlpts], P):
                 ctx.violate(site + ".set_ctrlpt", tg, small, {})
+            # reading through the manager: the points of an existing shape are found at the same (u, v, w)
+            m2 = Mgr(*size, tag=1, vec=2)
+            m2.ctrlpts = [list(q) for q in P]
+            for iu in range(size[0]):
+                for iv in range(size[1]):
+                    for iw in range(size[2] if pd == 3 else 1):
+                        args = (iu, iv) if pd == 2 else (iu, iv, iw)
+                        exp = o["tab"][iu][iv] if pd == 2 else o["tab"][iu][iv][iw]
+                        if not close_seq(list(m2.get_ctrlpt(*args)), P[exp]):
+                            ctx.violate(site + ".get_ctrlpt", tg, small, {"args": args, "expected_index": exp})
+                            return
+                        m2.set_ptdata({"tag": float(exp), "vec": [float(exp), -float(exp)]}, *args)
+            for iu in range(size[0]):
+                for iv in range(size[1]):
+                    for iw in range(size[2] if pd == 3 else 1):
+                        args = (iu, iv) if pd == 2 else (iu, iv, iw)
+                        exp = o["tab"][iu][iv] if pd == 2 else o["tab"][iu][iv][iw]
+                        if m2.get_ptdata("tag", *args) != float(exp) or list(m2.get_ptdata("vec", *args)) != [float(exp), -float(exp)]:
+                            ctx.violate(site + ".get_ptdata", tg, small, {"args": args, "expected": exp, "got": m2.get_ptdata("tag", *args)})
+                            return
+            if len(m2) != len(P) or [list(q) for q in m2] != [list(q) for q in P]:
+                ctx.violate(site + ".__iter__", tg, small, {})
         except Exception as e:
             ctx.violate(site, tg + ["raises"], small, {"exception": repr(e)[:200]})
     else:
@@ -176,7 +210,7 @@ THEOREMS = ["T_Extract2 / T_Extract3: construct(extract) along the matching dire
 
 
 def run(ctx):
-    res = core.run_tlc("MC_C13", "MC_C13_%s.cfg" % ctx.tier, timeout=1800)
+    res = core.run_model(ctx, "MC_C13", 1800, thorough_seeds=(2, 3, 5))
     core.tlc_must_pass(res, "MC_C13")
     ctx.add_tlc(res, "surfaces and volumes with pairwise different sizes x every layout operation")
     ctx.theorems = THEOREMS
